@@ -319,7 +319,8 @@ def sqlite_snapshot_ops(tier):
 
 
 def run(tier, seed, only=None):
-    obs = [('O1', sqlite_restore), ('O2', sqlite_columns), ('O3', sqlite_snapshot_ops)]
+    from props import memobs
+    obs = [('O1', sqlite_restore), ('O2', sqlite_columns), ('O3', sqlite_snapshot_ops), ('O4', lambda t: memobs.memory_rollback(t, 'O4', 'O4'))]
     out = []
     for k, f in obs:
         if only and k not in only:
